@@ -46,6 +46,8 @@ class Sim:
         if o == "mvc":
             k, a, b = t[1], t[2], t[3]
             return "ok" if (a not in g and b in g and k != "q" and g[b][0] == k) else "invalid"
+        if o in ("gnew", "gdefer"):     # frg::guard(&m) / frg::guard(dont_lock, &m): as `new u` / `defer u`
+            return self.classify((("new" if o == "gnew" else "defer"), "u", t[1], t[2]))
         if o in ("cpc", "cpa"):
             return "invalid"
         if o in ("mva", "swap"):
@@ -69,7 +71,9 @@ class Sim:
 
     def apply(self, t):
         o = t[0]; g = self.g
-        if o == "new": g[t[2]] = [t[1], t[3], True]
+        if o == "gnew": g[t[1]] = ["u", t[2], True]
+        elif o == "gdefer": g[t[1]] = ["u", t[2], False]
+        elif o == "new": g[t[2]] = [t[1], t[3], True]
         elif o == "defer": g[t[2]] = [t[1], t[3], False]
         elif o == "adopt": g[t[2]] = [t[1], t[3], True]
         elif o == "empty": g[t[2]] = [t[1], None, False]
@@ -88,6 +92,10 @@ def fmt(t):
 
 def all_ops(ng, nm, kinds=KINDS):
     ops = []
+    if "u" in kinds:
+        for g in range(ng):
+            for m in range(nm):
+                ops.append(("gnew", g, m)); ops.append(("gdefer", g, m))
     for k in kinds:
         for g in range(ng):
             for m in range(nm):
@@ -158,6 +166,10 @@ def guard_corpus():
         ("corpus-ub-null", ["empty u 0", "lock 0"]),
         # API surface: which transfer operations the real guard types offer (type traits) vs. the model's table; a seeded
         # change made the QS lock_guard move-constructible with a memberwise move (both objects own -> double unlock)
+        # free helpers guard(&m) / guard(dont_lock, &m): a seeded change built the deferred guard with adopt_lock
+        ("corpus-helper-deferred-drop", ["gdefer 0 0", "isl 0", "prot 0 0", "del 0"]),
+        ("corpus-helper-deferred-lock", ["gdefer 0 0", "lock 0", "unlock 0", "end"]),
+        ("corpus-helpers", ["gnew 0 0", "gdefer 1 1", "isl 0", "isl 1", "mva 1 0", "lock 0", "end"]),
         ("corpus-api", ["api"]),
         ("corpus-q-move", ["api", "new q 0 0", "mvc q 1 0", "isl 0", "isl 1", "end"]),
         ("corpus-q-move-del", ["new q 0 0", "mvc q 1 0", "del 1", "del 0"]),
